@@ -774,5 +774,51 @@ def r15_18(ctx):
     return r
 
 
+def r15_19(ctx):
+    """'serialising any well-formed packet it parsed reproduces bytes ...': the X bit and the 4-byte profile/length word are
+    written exactly when the header HAS an extension block - RFC 3550 5.3.1 allows one of length 0, and the parser keeps
+    it as Some(profile, []). A writer that decides by 'is there anything to put on the wire' drops such a block: parse then
+    marshal changes the bytes, marshal then parse loses the profile. Decided: in RtpHeader::write_to and encoded_len the
+    Option whose Some-ness sets the X bit / adds the block is the field `self.extension` itself, not a filtered copy."""
+    r = RuleResult("R15.19", "K6", "the X bit and the extension block follow extension.is_some(), also for an empty block")
+    for fn in ("rtp::RtpHeader::write_to", "rtp::RtpHeader::encoded_len"):
+        b = ctx.body(fn)
+        r.scope.append(fn)
+        deciders = []
+        for sb in range(len(b.blocks)):
+            if sb in b.cleanup or b.blocks[sb]["t"]["k"] != "switch":
+                continue
+            term, outs = b.switch_info(sb)
+            t = term
+            while t[0] == "un" and t[1] == "Not":
+                t = t[2]
+            opt = None
+            if t[0] == "call" and t[1].endswith(("Option::<T>::is_some", "Option::<T>::is_none")) and t[2]:
+                opt = t[2][0]
+            elif t[0] == "discr" and len(t) > 2 and str(t[2]).endswith("option::Option"):
+                opt = t[1]
+            if opt is not None and (mir.has_field(opt, "extension") or mir.has(opt, lambda x: x[0] == "call" and "extension" in x[1])):
+                deciders.append((sb, opt))
+        for bi, t, p in b.calls():
+            if p and p.endswith(("Option::<T>::map_or", "Option::<T>::map", "Option::<T>::is_some_and")) and t["a"]:
+                opt = b.term_operand(t["a"][0])
+                if mir.has_field(opt, "extension") or mir.has(opt, lambda x: x[0] == "call" and "extension" in x[1]):
+                    deciders.append((bi, opt))
+        if not deciders:
+            raise core.CheckerError("R15.19: no decision on the extension found in %s" % fn)
+        for sb, opt in deciders:
+            core_opt = opt
+            while core_opt[0] == "call" and core_opt[1].endswith(("::as_ref", "::as_deref")) and core_opt[2]:
+                core_opt = core_opt[2][0]
+            direct = core_opt[0] == "field" and core_opt[2] == "extension"
+            if direct:
+                r.ok({"site": b.where(sb), "decides on": "self.extension"})
+            else:
+                r.violate(fn, "xbit:filtered", b.where(sb),
+                          "the extension is written / counted depending on %s, not on self.extension.is_some(): a present block of length 0 "
+                          "(legal, RFC 3550 5.3.1) is dropped on serialisation" % mir.show(opt, 70))
+    return r
+
+
 def run(ctx):
-    return [r15_1(ctx), r15_2(ctx), r15_3(ctx), r15_4(ctx), r15_5(ctx), r15_6(ctx), r15_7(ctx), r15_8(ctx), r15_9(ctx), r15_10(ctx), r15_11(ctx), r15_12(ctx), r15_13(ctx), r15_14(ctx), r15_15(ctx), r15_16(ctx), r15_17(ctx), r15_18(ctx)]
+    return [r15_1(ctx), r15_2(ctx), r15_3(ctx), r15_4(ctx), r15_5(ctx), r15_6(ctx), r15_7(ctx), r15_8(ctx), r15_9(ctx), r15_10(ctx), r15_11(ctx), r15_12(ctx), r15_13(ctx), r15_14(ctx), r15_15(ctx), r15_16(ctx), r15_17(ctx), r15_18(ctx), r15_19(ctx)]
